@@ -40,11 +40,14 @@ NB_PEG = [
     ('nb_peg', 'nb_peg_repbal', 'PUSH(a) ~ (DROP ~ PUSH(b) ~ c)* ~ b? ~ POP; all strings<=8 chars over {a,b,c}', 'q'),
     ('nb_peg', 'nb_peg_predmut', 'PUSH(a) ~ &(POP ~ PUSH(b)) ~ !(DROP ~ c) ~ POP; all strings<=6 chars over {a,b,c}', 'q'),
 ]
+NB_PEG = [(t[0], t[1], t[2], 'Q') for t in NB_PEG] + [(t[0], t[1], t[2] + ' — bound raised by 2 characters', 't', {'VERIF_NB_EXTRA': '2'}) for t in NB_PEG]
 NB_PEG_STACK = [t for t in NB_PEG if t[1] in ('nb_peg_push_pop', 'nb_peg_pred', 'nb_peg_rep_choice', 'nb_peg_slice', 'nb_peg_bal', 'nb_peg_optpush', 'nb_peg_reppush', 'nb_peg_repbal', 'nb_peg_predmut')]
 NB_SLICES = ('nb_slices', 'nb_slices', 'all stacks of depth<=4 over {a,bb} x all PEEK[a..b], PEEK[a..] with a,b in -6..=6 x all inputs<=5 chars', 'q')
 NB_PEG_D1 = ('nb_peg', 'nb_peg_d1', 'PUSH(a) ~ ((POP? ~ b) | PEEK); all strings<=6 chars over {a,b}', 'q')
-NB_GEN = ('derive:nb_gen', 'nb_gen_vs_pest', 'generated parser vs pest: 18 rules (all kinds/operators) x all strings<=5 chars over 3 alphabets', 'q')
-NB_GEN_SUB = ('derive:nb_gen', 'nb_gen_subinput', 'generated parser: 7 rules x all strings<=4 chars over 2 alphabets x all sub-ranges (Span/Position vs fresh copy)', 'q')
+NB_GEN = ('derive:nb_gen', 'nb_gen_vs_pest', 'generated parser vs pest: 18 rules (all kinds/operators) x all strings<=5 chars over 3 alphabets', 'Q')
+NB_GEN_T = ('derive:nb_gen', 'nb_gen_vs_pest', 'generated parser vs pest: 18 rules x all strings<=7 chars over 3 alphabets', 't', {'VERIF_NB_L': '7'})
+NB_GEN_SUB = ('derive:nb_gen', 'nb_gen_subinput', 'generated parser: 7 rules x all strings<=4 chars over 2 alphabets x all sub-ranges (Span/Position vs fresh copy)', 'Q')
+NB_GEN_SUB_T = ('derive:nb_gen', 'nb_gen_subinput', 'generated parser: 7 rules x all strings<=6 chars x all sub-ranges', 't', {'VERIF_NB_L': '6'})
 K_PEG = [
     ('k_peg', 'peg_seq3_skip', 'bounded', 'q', 'a ~ b ~ a with skip; symbolic input <=5 chars over {a,b,space}; unwind 7'),
     ('k_peg', 'peg_seq2_atomic', 'bounded', 'q', '@{a ~ b}; symbolic input <=4 chars; unwind 6'),
@@ -65,7 +68,7 @@ PROPS = {
         'verus': ['comb', 'choice', 'nodes', 'seqchk', 'repchk', 'wrappers', 'leaf', 'input'],
         'expanded': True,
         'kani': K_PEG,
-        'native': NB_PEG + [NB_PEG_D1, NB_GEN],
+        'native': NB_PEG + [NB_PEG_D1, NB_GEN, NB_GEN_T],
         'assumptions': ['sem (PEG denotation with full backtracking, failing empty-stack operations) is pest\'s behaviour where pest is defined',
                         'generator translation of the grammar into the combinator type tree is not verified (DESIGN.md §6)'],
     },
@@ -77,7 +80,7 @@ PROPS = {
         'verus': [],
         'expanded': False,
         'kani': [],
-        'native': [NB_GEN],
+        'native': [NB_GEN, NB_GEN_T],
         'explanation': 'Every (rule, input) pair within the bound is parsed by the pest-generated and the pest-typed-generated parser; trees are compared after pruning atomic tokens in the pest tree. obligations/discharged are zero: nothing is proved beyond the bound.',
         'assumptions': ['pest is the reference'],
     },
@@ -89,7 +92,7 @@ PROPS = {
         'verus': ['comb', 'choice', 'nodes', 'seqchk', 'repchk', 'wrappers', 'leaf'],
         'expanded': True,
         'kani': K_PEG,
-        'native': NB_PEG + [NB_GEN],
+        'native': NB_PEG + [NB_GEN, NB_GEN_T],
         'assumptions': ['R1 (tracker erasure) is behaviour-preserving for match/offset/stack results'],
     },
     'C04': {
@@ -100,7 +103,7 @@ PROPS = {
         'verus': ['wrappers'],
         'expanded': False,
         'kani': [],
-        'native': [NB_GEN],
+        'native': [NB_GEN, NB_GEN_T],
         'assumptions': [],
     },
     'C05': {
@@ -141,7 +144,7 @@ PROPS = {
         'verus': ['seqchk', 'repchk', 'wrappers'],
         'expanded': True,
         'kani': K_PEG,
-        'native': NB_PEG + [NB_GEN],
+        'native': NB_PEG + [NB_GEN, NB_GEN_T],
         'assumptions': ['which of 0 / 1 / INHERITED reaches each rule reference is decided by generator code outside the verified set'],
     },
     'C08': {
@@ -153,7 +156,7 @@ PROPS = {
         'expanded': False,
         'kani': [],
         'native': [
-            ('derive:nb_gen', 'nb_gen_subinput', 'generated parser: 7 rules x all strings<=4 chars over 2 alphabets x all sub-ranges (Span/Position vs fresh copy)', 'q'),
+            NB_GEN_SUB, NB_GEN_SUB_T,
             ('nb_input', 'nb_skip_until_contract', 'all strings<=4 chars over {a,*,/,é,€,😀} x all spans x 3 cursors x 5 needle sets', 'q'),
             ('nb_input', 'nb_skip_contract', 'all strings<=4 chars x all spans x n<6', 'q'),
             ('nb_input', 'nb_shims', 'std shims + UTF-8 lemmas on all strings<=3 chars', 'q'),
@@ -170,8 +173,8 @@ PROPS = {
         'expanded': False,
         'kani': [],
         'native': [
-            ('derive:nb_gen', 'nb_gen_subinput', 'generated parser: 7 rules x all strings<=4 chars over 2 alphabets x all sub-ranges (Span/Position vs fresh copy)', 'q'),
-            ('derive:nb_gen', 'nb_gen_vs_pest', 'generated parser vs pest: 18 rules (all kinds/operators) x all strings<=5 chars over 3 alphabets', 'q'),
+            NB_GEN_SUB, NB_GEN_SUB_T,
+            NB_GEN, NB_GEN_T,
             ('nb_input', 'nb_skip_contract', 'all strings<=4 chars x all spans x n<6', 'q'),
             ('nb_input', 'nb_shims', 'std shims + UTF-8 lemmas on all strings<=3 chars', 'q'),
         ],
@@ -185,7 +188,7 @@ PROPS = {
         'verus': ['tracker', 'wrappers'],
         'expanded': False,
         'kani': [],
-        'native': [NB_GEN],
+        'native': [NB_GEN, NB_GEN_T],
         'assumptions': ['contracts of Tracker::clear / get_entry / record are assumed (BTreeMap has no vstd model)',
                         'truthfulness of expected/unexpected rule lists is not decided (only location, bounds, rendering, determinism within the bound)'],
     },
@@ -243,7 +246,7 @@ PROPS = {
         'verus': [],
         'expanded': False,
         'kani': [],
-        'native': [NB_GEN],
+        'native': [NB_GEN, NB_GEN_T],
         'explanation': 'The traversal helpers are run on the real tree of every accepted (rule, input) pair within the bound and compared with a recursive reference traversal written in the test.',
         'assumptions': [],
     },
